@@ -62,6 +62,8 @@ def build_config(case: dict[str, Any]) -> EnOptConfig:
         "variables": {"initial_values": case["x0"], "lower_bounds": case["lb"], "upper_bounds": case["ub"]},
         "optimizer": {"method": spell(case["method"], case.get("spelling")), "options": OPTIONS[case["options"]]},
     }
+    if case.get("output_dir"):  # (a place where the back-end may write: it switches on the back-end's own reporting, nothing else)
+        cfg["optimizer"]["output_dir"] = "c08-output-not-created"
     if case.get("parallel") and case["method"] == "differential_evolution":
         cfg["optimizer"]["parallel"] = True  # (the population is evaluated as one batch)
     if case["max_iterations"] is not None:
@@ -352,6 +354,7 @@ def exhaustive_shard(item: dict[str, Any]) -> Collector:
                     case["spelling"] = SPELLINGS[count % len(SPELLINGS)]
                     case["max_functions"] = (None, 1000)[(count // len(SPELLINGS)) % 2]
                     case["parallel"] = count % 3 != 0
+                    case["output_dir"] = count % 4 == 1
                     case["nl"] = [list(kind_bounds(k, 0.25 * (i + 1), 1.0 + i)) for i, k in enumerate(kinds[:c_n])]
                     case["lin"] = [list(kind_bounds(k, -0.5 + 0.3 * i, 2.0)) for i, k in enumerate(kinds[c_n:])]
                     case["a_nl"] = [((2 * i + 3 * j) % 5 - 2.0) or 1.0 for i in range(c_n) for j in range(n)]
@@ -421,6 +424,7 @@ def hypothesis_shard(item: dict[str, Any]) -> Collector:
             ub = [v if np.isfinite(v) else 4.0 for v in ub]
         case["lb"], case["ub"] = lb, ub
         case["parallel"] = method == "differential_evolution" and draw(st.booleans())
+        case["output_dir"] = draw(st.integers(0, 2)) == 0
         case["x0"] = [draw(st.sampled_from([0.0, 0.5, -0.5, 1.0])) for _ in range(n)]
         case["types"] = [draw(st.sampled_from([1, 2])) for _ in range(n)] if draw(st.integers(0, 2)) == 0 else None
         c_n, l_n = draw(st.integers(0, 3)), draw(st.integers(0, 3))
